@@ -144,14 +144,16 @@ def _impersonate_options(
                 ts1 = 0
             elif uptime is not None:  # if specified uptime, override
                 ts1 = uptime
-            elif ts1 is None or not (0 <= ts1 < max_ts):  # invalid hint
+            elif ts1 is None or not (0 < ts1 < max_ts):  # invalid hint
                 ts1 = random.randint(120, 100 * 60 * 60 * 24 * 365)
 
             # non-zero peer timestamp on initial SYN
             if Quirk.OPT_NZ_TS2 in signature.quirks and tcp_type == TCPFlag.SYN:
                 if ts2 is None or not (0 < ts2 < max_ts):  # invalid hint
                     ts2 = random.randrange(1, max_ts)
-            else:
+            elif tcp_type == TCPFlag.SYN or ts2 is None or not (0 <= ts2 < max_ts):
+                # peer timestamp must be zero on an initial SYN without ts2+;
+                # on a SYN+ACK it is not part of the signature, keep a valid hint
                 ts2 = 0
 
             impersonated_option = ("Timestamp", (ts1, ts2))
